@@ -5103,6 +5103,17 @@ _trait_setstate(trait_object *trait, PyObject *args)
         }
     }
 
+    /* '_trait_getstate' writes None for a trait that has no attribute
+       dictionary yet; anything else must be a dictionary, as for the
+       '__dict__' setter. */
+    if (obj_dict == Py_None) {
+        obj_dict = NULL;
+    }
+    else if (!PyDict_Check(obj_dict)) {
+        dictionary_error();
+        return NULL;
+    }
+
     /*
        Backwards compatibility hack for old pickles. Versions of Traits
        prior to 6.0 replaced callables with a long value (-1).
